@@ -704,6 +704,15 @@ public:
             }
             return;
         }
+        if (auto* x = dyn_cast<CXXTypeidExpr>(s)) {
+            K("Typeid", s);
+            if (x->isTypeOperand()) {
+                J.attribute("of", ty(x->getTypeOperandSourceInfo()->getType()));
+            } else {
+                child("e", x->getExprOperand());
+            }
+            return;
+        }
         // ---- fallback
         {
             std::string k = std::string("?") + s->getStmtClassName();
